@@ -16,6 +16,8 @@ package main
 //   z            stop reading from this connection (the receive buffer is made small first): whatever the client
 //                writes from now on piles up in the socket buffers until its Write blocks;   Z  read again
 // After its script a connection is left open until the panel is closed.
+// A quiet panel (NewScriptedPanelQ) records what it receives by count only (`rxn:k:<bytes>`): for scripts in which the
+// client writes megabytes nobody looks at.
 //
 // Used by the data-path families (netdata.go: C08, C09, C10, C12); nothing here knows about a property.
 
@@ -33,9 +35,10 @@ import (
 
 // ---- trace ----
 type netEvent struct {
-	kind string // token text before "@", or "rx" for coalescable receive events
+	kind string // token text before "@", or "rx" / "rxn" for coalescable receive events
 	k    int
 	data []byte
+	n    int // rxn: number of bytes
 	ms   int64
 }
 
@@ -68,6 +71,17 @@ func (t *NetTrace) AddRx(k int, b []byte) {
 	t.mu.Unlock()
 }
 
+// AddRxN records that n bytes were received on connection k (count only); consecutive events are merged.
+func (t *NetTrace) AddRxN(k int, n int) {
+	t.mu.Lock()
+	if l := len(t.ev); l > 0 && t.ev[l-1].kind == "rxn" && t.ev[l-1].k == k {
+		t.ev[l-1].n += n
+	} else {
+		t.ev = append(t.ev, netEvent{kind: "rxn", k: k, n: n, ms: t.now()})
+	}
+	t.mu.Unlock()
+}
+
 func (t *NetTrace) String() string {
 	t.mu.Lock()
 	defer t.mu.Unlock()
@@ -81,6 +95,11 @@ func (t *NetTrace) String() string {
 			sb.WriteString(strconv.Itoa(e.k))
 			sb.WriteByte(':')
 			sb.WriteString(hx(e.data))
+		} else if e.kind == "rxn" {
+			sb.WriteString("rxn:")
+			sb.WriteString(strconv.Itoa(e.k))
+			sb.WriteByte(':')
+			sb.WriteString(strconv.Itoa(e.n))
 		} else {
 			sb.WriteString(e.kind)
 		}
@@ -151,23 +170,46 @@ type ScriptedPanel struct {
 	connected int // number of "client connected" signals so far
 	conns     []*panelConn
 	closed    bool
-	done      sync.WaitGroup // one per scripted connection
+	rxQuiet   bool
+	done      sync.WaitGroup  // one per scripted connection
+	scriptEnd []chan struct{} // closed when the script of connection k has run
 	readers   sync.WaitGroup
 }
 
 func NewScriptedPanel(tr *NetTrace, scripts []ConnScript) (*ScriptedPanel, error) {
+	return NewScriptedPanelQ(tr, scripts, false)
+}
+
+// NewScriptedPanelQ: quiet = record received bytes by count only (`rxn:k:<bytes>`).
+func NewScriptedPanelQ(tr *NetTrace, scripts []ConnScript, quiet bool) (*ScriptedPanel, error) {
 	ln, err := net.Listen("tcp", "127.0.0.1:0")
 	if err != nil {
 		return nil, err
 	}
-	p := &ScriptedPanel{ln: ln, tr: tr, scripts: scripts}
+	p := &ScriptedPanel{ln: ln, tr: tr, scripts: scripts, rxQuiet: quiet}
 	p.cond = sync.NewCond(&p.mu)
 	p.done.Add(len(scripts))
+	for range scripts {
+		p.scriptEnd = append(p.scriptEnd, make(chan struct{}))
+	}
 	go p.acceptLoop()
 	return p, nil
 }
 
 func (p *ScriptedPanel) Addr() string { return p.ln.Addr().String() }
+
+// WaitScript waits until the script of connection k has run, or the cap expires.
+func (p *ScriptedPanel) WaitScript(k int, cap time.Duration) bool {
+	if k >= len(p.scriptEnd) {
+		return true
+	}
+	select {
+	case <-p.scriptEnd[k]:
+		return true
+	case <-time.After(cap):
+		return false
+	}
+}
 
 // SignalConnected: the harness calls this from the client's onconnect callback.
 func (p *ScriptedPanel) SignalConnected() {
@@ -232,6 +274,7 @@ func (p *ScriptedPanel) acceptLoop() {
 		if k < len(p.scripts) {
 			go func(k int) {
 				defer p.done.Done()
+				defer close(p.scriptEnd[k])
 				p.runScript(pc, p.scripts[k])
 			}(k)
 		}
@@ -249,7 +292,11 @@ func (p *ScriptedPanel) reader(pc *panelConn) {
 		pc.mu.Unlock()
 		n, err := pc.c.Read(buf)
 		if n > 0 {
-			p.tr.AddRx(pc.k, buf[:n])
+			if p.rxQuiet {
+				p.tr.AddRxN(pc.k, n)
+			} else {
+				p.tr.AddRx(pc.k, buf[:n])
+			}
 			pc.mu.Lock()
 			pc.received += n
 			pc.cond.Broadcast()
